@@ -803,7 +803,6 @@ class Remoter(tyming.Tymee):
             if ex.args[0] in (errno.EAGAIN, errno.EWOULDBLOCK):
                 count = 0  # blocked try again
             elif ex.args[0] in (errno.ECONNRESET,
-                                errno.EPIPE,
                                 errno.ENETRESET,
                                 errno.ENETUNREACH,
                                 errno.EHOSTUNREACH,
@@ -841,7 +840,13 @@ class Remoter(tyming.Tymee):
         If partial send reattach and return
         """
         while self.txbs and not self.cutoff:
-            count = self.send(self.txbs)
+            try:
+                count = self.send(self.txbs)
+            except OSError as ex:
+                if ex.args[0] in (errno.EPIPE, ):  # far side gone
+                    self.cutoff = True  # signals need to close/reopen connection
+                    break
+                raise
             del self.txbs[:count]
             break  # try again later
 
@@ -1012,7 +1017,6 @@ class RemoterTls(Remoter):
             if ex.args[0] in (ssl.SSL_ERROR_WANT_READ, ssl.SSL_ERROR_WANT_WRITE):
                 result = 0  # blocked try again
             elif ex.args[0] in (errno.ECONNRESET,
-                                errno.EPIPE,
                                 errno.ENETRESET,
                                 errno.ENETUNREACH,
                                 errno.EHOSTUNREACH,
